@@ -10,8 +10,7 @@ sub-commands, cmd/shoot/main.go). The model mirrors the algorithm the code uses,
                      no -type and no -file -> usage, exit 2; -file must end in .go and exist
     LoadPackage      FileName == "" && "*" in TypeNames: first file (Syntax order) having a comment that
                      matches ^//go:generate.*<cmdline>$  ->  allInOneFile
-    confirmTypes     specified: for each name gofile = getGoFile(name) (ranges over the MAP TypesInfo.Defs,
-                     first *types.TypeName of that name wins - type parameters and local types count);
+    confirmTypes     specified: for each name gofile = getGoFile(name) (package scope lookup; "" when missing);
                      FileName == "" -> fileNameMap[name] = gofile, else FileName != gofile -> Fatal
                      not specified: TypeNames = ListTypes()
     Generate         for each name: MakeData (nil -> skip, may Fatal); filename = fileName(name);
@@ -22,7 +21,7 @@ sub-commands, cmd/shoot/main.go). The model mirrors the algorithm the code uses,
 
 Externals taken as inputs: the result of Go's flag package (`Flags`), go/types facts of each declaration
 (underlying basic kind, what an interface embeds, whether the dest package has a struct of the same name),
-the iteration order of the map `TypesInfo.Defs` (`Oracle`), string functions (opaque).
+string functions (ASCII, over `toList`).
 -/
 namespace ShootVerif.Cli
 
@@ -159,31 +158,17 @@ def allTSpecs : Pkg → List TSpec
   | [] => []
   | f :: r => f.tspecs ++ allTSpecs r
 
-/-- names of all *types.TypeName objects a declaration puts into TypesInfo.Defs -/
-def Decl.typeNames : Decl → List String
-  | .types ss => ss.flatMap (fun t => t.name :: t.tparams)
-  | .func tps ls => tps ++ ls.flatMap (fun t => t.name :: t.tparams)
-  | _ => []
-
-def declsTypeNames : List Decl → List String
+/-- package-level type declarations of a file, in order -/
+def topSpecs : List Decl → List TSpec
   | [] => []
-  | d :: r => d.typeNames ++ declsTypeNames r
+  | .types ss :: r => ss ++ topSpecs r
+  | _ :: r => topSpecs r
 
-/-- the files of all TypeName definitions called `n` (candidates of getGoFile) -/
-def cands (n : String) : Pkg → List String
-  | [] => []
-  | f :: r => (if (declsTypeNames f.decls).contains n then [f.name] else []) ++ cands n r
-
-/-- iteration order of the map TypesInfo.Defs: which candidate comes first, per name -/
-abbrev Oracle := String → Nat
-
-def pick : List String → Nat → String
-  | [], _ => ""
-  | [x], _ => x
-  | x :: _ :: _, 0 => x
-  | _ :: y :: r, i + 1 => pick (y :: r) i
-
-def getGoFile (o : Oracle) (pkg : Pkg) (n : String) : String := pick (cands n pkg) (o n)
+/-- getGoFile: `pkg.Types.Scope().Lookup(name)` as a *types.TypeName, file of its position; "" when the package scope
+    has no such type (type parameters and function-local types are not in the package scope) -/
+def getGoFile (n : String) : Pkg → String
+  | [] => ""
+  | f :: r => if (topSpecs f.decls).any (·.name == n) then f.name else getGoFile n r
 
 /-! ### LoadPackage: the go:generate line lookup -/
 
@@ -294,6 +279,19 @@ def restNodes : List TSpec → Except Stop Unit
 /-- `obj.Type().Underlying().(*types.Basic).Info() & IsInteger == 0` -/
 def nonIntUnder (t : TSpec) : Bool := match t.under with | some k => !k.integer | none => false
 
+/-- rest: hasClient runs testNode(name, ·) on every TypeSpec of that name until one is a RestClient interface;
+    `none` = the nil dereference of an embedded universe type -/
+def restHas : List TSpec → Option Bool
+  | [] => some false
+  | t :: r =>
+    match t.shape with
+    | .iface es =>
+      match ifaceTest es with
+      | none => none
+      | some true => some true
+      | some false => restHas r
+    | _ => restHas r
+
 def makeData (cmd : Cmd) (pkg : Pkg) (specified : Bool) (n : String) : Except Stop Bool :=
   let ts := namedSpecs pkg n
   match cmd with
@@ -305,13 +303,17 @@ def makeData (cmd : Cmd) (pkg : Pkg) (specified : Bool) (n : String) : Except St
     else throw .fatal
   | .enum =>
     -- makeStr: alias of that name -> Fatal; constants of a non-integer type -> Fatal; no constant -> nil
+    -- (with a warning "no constants of type … found" when the type was named: `skipWarn`)
     if ts.any (·.alias) then throw .fatal
     else if (constsOf n pkg).isEmpty then pure false
     else if ts.any nonIntUnder then throw .fatal
     else pure true
   | .rest =>
-    -- cookClient never fails on a missing or non-RestClient name: data is always returned
-    do restNodes ts; pure true
+    -- hasClient: no RestClient interface of that name -> Fatal "is not an interface embedding shoot.RestClient"
+    match restHas ts with
+    | none => throw .panic
+    | some false => throw .fatal
+    | some true => do restNodes ts; pure true
   | .map =>
     -- src: a struct TypeSpec of that name (exportedness only matters in ListTypes) else Fatal;
     -- dest: missing -> Fatal when specified, nil otherwise
@@ -332,16 +334,16 @@ def keep (cmd : Cmd) (pkg : Pkg) (specified : Bool) : List String → Except Sto
 
 /-! ### confirmTypes, fileName, srcMap -/
 
-def confirm (o : Oracle) (pkg : Pkg) (file : String) : List String → Except Stop (List (String × String))
+def confirm (pkg : Pkg) (file : String) : List String → Except Stop (List (String × String))
   | [] => pure []
   | n :: r =>
-    let g := getGoFile o pkg n
+    let g := getGoFile n pkg
     if file == "" then
-      match confirm o pkg file r with
+      match confirm pkg file r with
       | .error e => .error e
       | .ok m => .ok ((n, g) :: m)
     else if file != g then .error .fatal     -- "type … is not in the specified file"
-    else confirm o pkg file r
+    else confirm pkg file r
 
 def fileName (file aio : String) (fnm : List (String × String)) (t : String) : OutName :=
   let fname := if file != "" then file else if aio != "" then aio else (fnm.lookup t).getD ""
@@ -385,9 +387,9 @@ def aioOf (pkg : Pkg) (fl : Flags) : String :=
   if fl.file == "" && fl.types.contains "*" then findAllInOne fl.cmdline pkg else ""
 
 /-- confirmTypes: (TypeNames, fileNameMap, a warning was printed) -/
-def confirmTypes (o : Oracle) (cmd : Cmd) (pkg : Pkg) (fl : Flags) : Except Stop (List String × List (String × String) × Bool) :=
+def confirmTypes (cmd : Cmd) (pkg : Pkg) (fl : Flags) : Except Stop (List String × List (String × String) × Bool) :=
   if specifiedOf fl then
-    match confirm o pkg fl.file fl.types with
+    match confirm pkg fl.file fl.types with
     | .error e => .error e
     | .ok m => .ok (fl.types, m, false)
   else
@@ -402,20 +404,25 @@ def srcMapOf (separate : Bool) (file aio : String) (fnm : List (String × String
   else if produced.isEmpty then []
   else [(fileName file aio fnm "", produced)]
 
+/-- enum's MakeData warns for every NAMED type it skips (no typed constants found) -/
+def skipWarn (cmd : Cmd) (specified : Bool) (names produced : List String) : Bool :=
+  cmd == .enum && specified && names.any (fun n => !produced.contains n)
+
 /-- main after Generate -/
 def finish (srcMap : List (OutName × List String)) (warned : Bool) : Outcome :=
   .done (mainLoop srcMap).1 (mainLoop srcMap).2 (warned || srcMap.isEmpty)
 
-def run (o : Oracle) (cmd : Cmd) (pkg : Pkg) (fl : Flags) : Outcome :=
+def run (cmd : Cmd) (pkg : Pkg) (fl : Flags) : Outcome :=
   match flagCheck pkg fl with
   | some s => .stop s
   | none =>
-    match confirmTypes o cmd pkg fl with
+    match confirmTypes cmd pkg fl with
     | .error e => .stop e
     | .ok (names, fnm, warned) =>
       match keep cmd pkg (specifiedOf fl) names with
       | .error e => .stop e
       | .ok produced =>
-        finish (srcMapOf (specifiedOf fl || fl.sep) fl.file (aioOf pkg fl) fnm produced) warned
+        finish (srcMapOf (specifiedOf fl || fl.sep) fl.file (aioOf pkg fl) fnm produced)
+          (warned || skipWarn cmd (specifiedOf fl) names produced)
 
 end ShootVerif.Cli
